@@ -314,6 +314,14 @@ def run_check(mod, tier, seed, replay_path=None):
     for k, vj in sorted(seen.items()):
         path = write_replay(prop, vj)
         print(f"violation {k}: expected={vj['expected']!r} actual={vj['actual']!r} {vj['detail']}"[:1500])
+        try:   # does the saved input alone reproduce it (in this process, which ran no campaign)?
+            mod.replay(vj["case"])
+            print("  note: the saved input does not fail when replayed alone - the failure depended on "
+                  "state left behind by earlier cases of the same worker (the violation itself was observed)")
+        except Violation:
+            print("  replay of the saved input reproduces the failure")
+        except BaseException as e:  # noqa
+            print(f"  replay of the saved input raised {type(e).__name__}: {e}"[:300])
         print(f"VIOLATION property={prop} replay={path}", flush=True)
         n_viol_lines += 1
 
